@@ -21,6 +21,7 @@ def check(rep, tier, seed, replay):
     distinct = set()
     samples = []
     all_mism = []
+    cert = {"halt_checked": 0, "halt_certified": 0, "blank_spinout_certified": 0}
     for name, progs in [("corpus", None)] + list(program_stream(tier, seed, quick_random=3000, thorough_random=30000)):
         if name == "corpus":
             lines = core.corpus_lines("C06")
@@ -38,6 +39,14 @@ def check(rep, tier, seed, replay):
                 goal = line.split(" ")[0].split("_", 1)[1]
                 items.append((goal, line.split(" | ", 1)[1], line, out))
         distinct |= {(it[0], it[1]) for it in items}
+        # 'true' answers certified by theorem: blank / spin-out unconditionally (cps_cant_blank_sound,
+        # cps_cant_spin_out_sound), halt when the model with the repaired table size answers true too
+        halts = [it for it in items if it[0] == "halt"]
+        hs = halts if tier == "thorough" else halts[:4000]
+        ho = core.run_driver([it[2].replace("cps_halt ", "cps_halt_fix ", 1) for it in hs])
+        cert["halt_checked"] += len(hs)
+        cert["halt_certified"] += sum(1 for o in ho if o == "true")
+        cert["blank_spinout_certified"] += len(items) - len(halts)
         bad = judge_refutations(rep, items, budget)
         if bad:
             model_of = dict(zip(lines, model))
@@ -68,6 +77,10 @@ def check(rep, tier, seed, replay):
                        "Distinct non-trivial = distinct (goal, program) answered true." % budget)
     rep.cov["samples"] = samples[:6]
     rep.cov["answer_kinds"] = kinds
+    rep.cov["true_answers_certified_by_theorem"] = cert
+    rep.cov["explanation"] = ("a 'true' answer of the real code (= the model's, by the correspondence) is certified by theorem: for blank and spin-out "
+                              "unconditionally (cps_cant_blank_sound, cps_cant_spin_out_sound), for halt when the model with the repaired table size "
+                              "(paramsCover) also answers true (cps_cant_halt_sound). Certified answers need no step budget; the L0 run judges all.")
     rep.cov["correspondence_mismatches"] = len(all_mism)
     rep.assumptions.append(f"L0 oracle budget {budget} base steps: an event later than that is not seen")
     rep.assumptions.append("cps.rs iterates a HashSet: only the Boolean answer is compared (order-independent except within MAX_LOOPS)")
